@@ -510,8 +510,9 @@ impl WhenCalledBuilder<'_> {
     /// assert!(Path::new("/nonexistent").exists());
     /// ```
     pub fn will_return_boolean(self, value: bool) {
-        // Ensure the target function returns a bool
-        if !self.expected_signature.trim().ends_with("-> bool") {
+        // Ensure the target function returns a bool. Only the function's own return type
+        // counts: `fn() -> fn() -> bool` ends with "-> bool" but returns a function pointer.
+        if return_type_of(self.expected_signature) != Some("bool") {
             panic!(
                 "Signature mismatch: will_return_boolean requires a function returning bool but got {}",
                 self.expected_signature
@@ -521,6 +522,28 @@ impl WhenCalledBuilder<'_> {
         let guard = self.when.will_return_boolean_guard(value);
         self.lib.guards.push(guard);
     }
+}
+
+/// The return type in the type name of a function pointer: the text after the `->` that
+/// follows the closing parenthesis of the (top-level) parameter list. `None` for a unit return
+/// or when `signature` is not a function pointer type name.
+fn return_type_of(signature: &str) -> Option<&str> {
+    let open = signature.find("fn(")? + 2;
+    let mut depth = 0usize;
+    for (i, c) in signature[open..].char_indices() {
+        match c {
+            '(' => depth += 1,
+            ')' => {
+                depth -= 1;
+                if depth == 0 {
+                    let rest = signature[open + i + 1..].trim_start();
+                    return rest.strip_prefix("->").map(|r| r.trim());
+                }
+            }
+            _ => {}
+        }
+    }
+    None
 }
 
 pub struct WhenCalledBuilderAsync<'a> {
